@@ -515,3 +515,145 @@ func ruleScan3(c *Ctx) []*Ob {
 	}
 	return o.list
 }
+
+func init() {
+	register(&Rule{
+		ID: "OPEN-1",
+		Doc: "Newest file first: openStore sorts the data file names (whose fixed-width sequence numbers make byte order = age) and then tries them in a loop; the first file with a " +
+			"readable footer is adopted and every other file is deleted. The direction of the sort and the direction of the loop index over the same slice must be opposite " +
+			"(ascending sort + descending index, or descending sort + ascending index), otherwise an older complete file wins and the newest data is deleted after a crash " +
+			"between a compaction's footer sync and the unlink of the old file. Recognised forms: sort.Strings / sort.Sort(sort.StringSlice) / slices.Sort (ascending), " +
+			"sort.Sort(sort.Reverse(...)) (descending); an index phi starting at 0 stepping +1, or at len-1 stepping -1. Anything else is reported as undecided.",
+		Props: []string{"C05"},
+		Floor: 1,
+		Run:   ruleOpen1,
+	})
+}
+
+func ruleOpen1(c *Ctx) []*Ob {
+	o := newObs(c, "OPEN-1")
+	f := c.Fn("openStore")
+	fn := c.fname(f)
+	leaves := func(v ssa.Value) map[ssa.Value]bool {
+		m := map[ssa.Value]bool{}
+		backSlice(v, func(w ssa.Value) bool { m[w] = true; return false })
+		return m
+	}
+	// the sort
+	sortDir, sortPos := "", ""
+	var sorted map[ssa.Value]bool
+	nSort := 0
+	eachInstr(f, func(i ssa.Instruction) {
+		call, ok := i.(*ssa.Call)
+		if !ok {
+			return
+		}
+		switch {
+		case isStaticCall(call, "sort", "Strings"), isStaticCall(call, "slices", "Sort"):
+			nSort++
+			sortDir, sortPos, sorted = "asc", c.instrPos(i), leaves(call.Call.Args[0])
+		case isStaticCall(call, "sort", "Sort"), isStaticCall(call, "sort", "Stable"):
+			nSort++
+			sortPos, sorted = c.instrPos(i), leaves(call.Call.Args[0])
+			rev := 0
+			for w := range sorted {
+				if rc, isC := w.(*ssa.Call); isC && isStaticCall(rc, "sort", "Reverse") {
+					rev++
+					for k := range leaves(rc.Call.Args[0]) {
+						sorted[k] = true
+					}
+				}
+			}
+			sortDir = "asc"
+			if rev%2 == 1 {
+				sortDir = "desc"
+			}
+		}
+	})
+	if nSort != 1 {
+		o.add(fn, "sort of the file names", c.pos(f.Pos()), false, fmt.Sprintf("undecided: %d recognised sort calls in openStore (expected exactly one)", nSort))
+		return o.list
+	}
+	// the probing loop: the OpenFile call inside a loop, its name argument indexes the sorted slice
+	var idx []*ssa.IndexAddr
+	eachInstr(f, func(i ssa.Instruction) {
+		call, ok := i.(*ssa.Call)
+		if !ok || !isFieldFuncCall(call, "StoreOptions", "OpenFile") || len(call.Call.Args) == 0 {
+			return
+		}
+		var scan func(v ssa.Value, depth int)
+		scan = func(v ssa.Value, depth int) {
+			backSlice(v, func(w ssa.Value) bool {
+				ia, isIA := w.(*ssa.IndexAddr)
+				if ld, isLd := w.(*ssa.UnOp); isLd && ld.Op == token.MUL {
+					ia, isIA = ld.X.(*ssa.IndexAddr)
+				}
+				if isIA {
+					for k := range leaves(ia.X) {
+						if sorted[k] {
+							idx = append(idx, ia)
+							break
+						}
+					}
+				}
+				// the name goes through path.Join / filepath.Join
+				if jc, isC := w.(*ssa.Call); isC && depth < 3 && (isStaticCall(jc, "path", "Join") || isStaticCall(jc, "path/filepath", "Join")) {
+					for _, a := range jc.Call.Args {
+						scan(a, depth+1)
+					}
+				}
+				return false
+			})
+		}
+		scan(call.Call.Args[0], 0)
+	})
+	if len(idx) == 0 {
+		o.add(fn, "probing loop over the file names", sortPos, false, "undecided: no OpenFile call in openStore takes its name from an element of the sorted slice")
+		return o.list
+	}
+	for _, ia := range idx {
+		dir := "?"
+		if ph, ok := ia.Index.(*ssa.Phi); ok && len(ph.Edges) == 2 {
+			var init, step ssa.Value
+			for _, e := range ph.Edges {
+				if b, isB := e.(*ssa.BinOp); isB && (b.X == ph || b.Y == ph) {
+					step = e
+				} else {
+					init = e
+				}
+			}
+			if sb, isB := step.(*ssa.BinOp); isB && init != nil {
+				k, _ := sb.Y.(*ssa.Const)
+				one := k != nil && k.Value != nil && k.Int64() == 1
+				up := one && sb.Op == token.ADD && sb.X == ph
+				down := one && sb.Op == token.SUB && sb.X == ph
+				if ik, isK := init.(*ssa.Const); isK && ik.Value != nil && ik.Int64() == 0 && up {
+					dir = "asc"
+				}
+				if ik, isK := init.(*ssa.Const); isK && ik.Value != nil && ik.Int64() == -1 && up {
+					dir = "asc" // range loop: starts at -1, incremented before use
+				}
+				if ib, isB := init.(*ssa.BinOp); isB && ib.Op == token.SUB && down {
+					if lk, _ := ib.Y.(*ssa.Const); lk != nil && lk.Value != nil && lk.Int64() == 1 {
+						if lc, isC := ib.X.(*ssa.Call); isC {
+							if bi, isBI := lc.Call.Value.(*ssa.Builtin); isBI && bi.Name() == "len" {
+								dir = "desc"
+							}
+						}
+					}
+				}
+			}
+		}
+		construct := "file names sorted " + sortDir + ", probed by index"
+		switch {
+		case dir == "?":
+			o.add(fn, construct, c.instrPos(ia), false, "undecided: the index over the sorted file names is not a recognised counting loop (0..len-1 or len-1..0)")
+		case dir == sortDir:
+			o.add(fn, construct, c.instrPos(ia), false, "the names are sorted "+sortDir+" (at "+sortPos+") and probed "+dir+": the OLDEST readable file is adopted and the newer ones are removed - "+
+				"after a crash between a compaction's footer sync and the unlink of the old file the newest data is deleted")
+		default:
+			o.add(fn, construct, c.instrPos(ia), true, "sorted "+sortDir+" and probed "+dir+": the newest file is tried first")
+		}
+	}
+	return o.list
+}
